@@ -306,3 +306,129 @@ func c16R11(c *Ctx, r *Report) {
 		r.Bad(rule, "container.(*Container).PeekContainer / nil results", "no failure result found (anchor lost)")
 	}
 }
+
+func c17R6(c *Ctx, r *Report) {
+	isEOF := Guard{Name: "errors.Is(err, io.EOF)", Truthy: true, Match: func(b ssa.Value) bool {
+		call, ok := isCallTo(b, "errors.Is")
+		if !ok || len(call.Call.Args) != 2 {
+			return false
+		}
+		u, ok := call.Call.Args[1].(*ssa.UnOp)
+		if !ok {
+			return false
+		}
+		g, ok := u.X.(*ssa.Global)
+		return ok && g.Name() == "EOF" && g.Pkg != nil && g.Pkg.Pkg.Path() == "io"
+	}}
+	retryOK := errNilGuard("the retried write succeeded", "database/storage/fstree.writeFile")
+	errSwallowRule(c, r, "C17-R6", 30, func(fn *ssa.Function) bool { return fn.Pkg != nil && inScope(short(fn.Pkg.Pkg.Path())) },
+		func(fn *ssa.Function, e ssa.Value) bool {
+			for _, l := range c.Leaves(e) {
+				if ex, ok := l.(*ssa.Extract); ok {
+					l = ex.Tuple
+				}
+				if call, ok := l.(*ssa.Call); ok {
+					if _, is := c17ContentStep(calleeName(&call.Call)); is {
+						return true
+					}
+				}
+			}
+			return false
+		},
+		map[string]swallowSpec{
+			"updater.copyFromZipArchive / error call:io.CopyN#1":                            {Guards: []Guard{isEOF}, Reason: "CopyN reports io.EOF when the member is shorter than the size limit; that is the regular end of the member"},
+			"database/storage/fstree.(*FSTree).Put / error call:database/storage/fstree.writeFile#0": {Guards: []Guard{retryOK}, Reason: "a first failure is retried after creating the directory; success only if the retry succeeded"},
+			"updater.(*ResourceRegistry).fetchFile / error call:os.Chmod#0":                    {Reason: "permissions are adjusted after the complete file was published; failure leaves complete content (logged)"},
+			"updater.(*ResourceRegistry).fetchFile / error call:os.WriteFile#0":                {Reason: "detached signature file, tolerated unless the download policy requires signatures (C17-R2 lists it as not atomically written)"},
+			"updater.(*ResourceRegistry).fetchMissingSig / error call:os.WriteFile#0":          {Reason: "detached signature file, tolerated unless the download policy requires signatures"},
+			"updater.(*ResourceRegistry).downloadIndex / error call:os.WriteFile#0":            {Reason: "the index copy on disk is a cache of what was just loaded into memory; a failed save is logged (index files are outside the statement's list)"},
+			"updater.(*ResourceRegistry).downloadIndex / error call:os.WriteFile#0 #2":         {Reason: "detached signature of the index copy; as above"},
+		})
+}
+
+// c17R7: a size cap on copied content is never applied silently: hitting the
+// cap is detected and reported as an error instead of publishing the prefix.
+func c17R7(c *Ctx, r *Report) {
+	const rule = "C17-R7"
+	r.SetFloor(rule, 1)
+	isEOF := Guard{Name: "errors.Is(err, io.EOF)", Truthy: true, Match: func(b ssa.Value) bool {
+		call, ok := isCallTo(b, "errors.Is")
+		if !ok || len(call.Call.Args) != 2 {
+			return false
+		}
+		u, ok := call.Call.Args[1].(*ssa.UnOp)
+		if !ok {
+			return false
+		}
+		g, ok := u.X.(*ssa.Global)
+		return ok && g.Name() == "EOF" && g.Pkg != nil && g.Pkg.Pkg.Path() == "io"
+	}}
+	n := 0
+	for _, fn := range c.allFuncs {
+		if fn.Pkg == nil || fn.Blocks == nil || !inScope(short(fn.Pkg.Pkg.Path())) {
+			continue
+		}
+		ord := map[string]int{}
+		for _, ci := range callsIn(fn, "io.CopyN") {
+			n++
+			cons := ordinal(ord, fnKey(fn)+" / io.CopyN cap")
+			call, _ := ci.(*ssa.Call)
+			// the test of CopyN's error
+			var tests []*ssa.If
+			for _, ifi := range errSwallowSites(c, fn) {
+				base, _ := peel(ifi.Cond)
+				for _, l := range c.Leaves(base) {
+					if ex, ok := l.(*ssa.Extract); ok && ex.Tuple == ssa.Value(call) {
+						tests = append(tests, ifi)
+					}
+				}
+			}
+			if call == nil || len(tests) == 0 {
+				r.Undecided(rule, cons, "the test of CopyN's error was not found")
+				continue
+			}
+			for _, ifi := range tests {
+				_, pos := peel(ifi.Cond)
+				succ := ifi.Block().Succs[1] // err == nil side
+				if !pos {
+					succ = ifi.Block().Succs[0]
+				}
+				p := reachFromBlockStart(fn, succ, isNilErrReturn, []Guard{isEOF}, nil)
+				r.Check(p == nil, rule, cons, "when CopyN copied the full cap (no error) success is returned only after a further read found the end of the source",
+					"CopyN returns no error exactly when the cap was reached; the function then returns success without checking that the source ends there, so a larger source is published as a truncated file: "+strings.Join(c.pathString(p), " -> "), c.Pos(ci.Pos()))
+			}
+		}
+		for _, ci := range callsIn(fn, "io.LimitReader") {
+			n++
+			cons := ordinal(ord, fnKey(fn)+" / io.LimitReader cap")
+			call, _ := ci.(*ssa.Call)
+			// does the capped reader feed a content step?
+			feeds := ""
+			eachInstr(fn, func(in ssa.Instruction) {
+				cc, ok := in.(ssa.CallInstruction)
+				if !ok || in == ssa.Instruction(ci) {
+					return
+				}
+				name, isStep := c17ContentStep(calleeName(cc.Common()))
+				if !isStep {
+					return
+				}
+				for _, a := range cc.Common().Args {
+					for _, l := range c.Leaves(a) {
+						if call != nil && l == ssa.Value(call) {
+							feeds = name
+						}
+					}
+				}
+			})
+			if feeds == "" {
+				r.OK(rule, cons, "the capped reader does not feed a publishing step")
+				continue
+			}
+			r.Bad(rule, cons, "content passed to "+feeds+" is read through io.LimitReader: everything beyond the limit is cut off without an error and the truncated file is published as complete", c.Pos(ci.Pos()))
+		}
+	}
+	if n == 0 {
+		r.Bad(rule, "io.CopyN cap", "no size-capped copy found (copyFromZipArchive expected): anchor lost")
+	}
+}
